@@ -93,7 +93,7 @@ Theorem c06_get_state_changers :
   ["runtimeState.u2fRegisterRequest"; "runtimeState.u2fRegisterResponse"; "runtimeState.u2fSignRequest";
    "runtimeState.webauthnBeginRegistration"; "runtimeState.webauthnFinishRegistration";
    "runtimeState.webauthnAuthLogin"; "runtimeState.webauthnAuthFinish"; "runtimeState.vipPushStartHandler";
-   "runtimeState.GenerateNewTOTP"; "runtimeState.oktaPushStartHandler";
+   "runtimeState.GenerateNewTOTP"; "runtimeState.oktaPushStartHandler"; "runtimeState.oktaPollCheckHandler";
    "runtimeState.BootstrapOtpAuthHandler"]%string.
 Proof. vm_compute. reflexivity. Qed.
 Print Assumptions c06_get_state_changers.
